@@ -6,6 +6,7 @@ depth-0 call, and a deep snapshot of every pool member *and of the caller-owned 
 built from* compared after every step.  Copy / pickle results are compared with their originals
 both with ``==`` and field by field.
 """
+import math
 import copy
 import operator
 import pickle
@@ -544,7 +545,7 @@ def validation_with_limits(ctx, r, n):
             cat, units = r.choice([("c13 len", ["m", "cm", "km"]), ("c13 temp", ["degC", "K", "degF"]), ("c13 time", ["s", "min", "h"])])
             u = r.choice(units)
             L = r.randint(1, 5)
-            vals = [r.choice([1.0, 2.5, 50.0, -3.0, 1e4, nan, nan, 0.0]) for _ in range(L)]
+            vals = [r.choice([1.0, 2.5, 50.0, -3.0, 1e4, nan, nan, 0.0, 100.00000000000001, -1e-17, 99.99999999999999, 1000.0000000000001, -50.00000000000001]) for _ in range(L)]
             kind = r.choice(["list", "tuple", "nd", "nd32", "ndint", "lot"])
             if kind == "list":
                 cont = list(vals)
@@ -583,6 +584,36 @@ def validation_with_limits(ctx, r, n):
                         ctx.violation("validation-or-formatting-changed-an-operand:%s.%s" % (nm.split(".")[0], call), dict(case, changed=changed, before=repr(before)[:300], after=repr(after)[:300]), replay=None)
                         before = after
             ctx.nt(("limits", cat, kind, any(v != v for v in vals)))
+        # amounts a rounding error away from an inclusive limit (typed that way, or left that way by arithmetic): validating
+        # them - whatever the verdict - leaves them what they are, and their copies and pickles hold the very same float
+        import copy as _copy
+        import pickle as _pickle
+
+        for cat, du, lim in (("c13 len", "m", 100.0), ("c13 len", "m", 0.0), ("c13 temp", "degC", -50.0), ("c13 time", "s", 1000.0)):
+            for x in (lim, math.nextafter(lim, math.inf), math.nextafter(lim, -math.inf), lim * (1 + 2**-52) if lim else 1e-17, lim * (1 - 2**-52) if lim else -1e-17, lim + 1e-13, lim - 1e-13):
+                made = [("typed", lambda: Scalar(cat, x, du)), ("arithmetic result", lambda: Scalar(cat, 1.0, du) * x), ("sum", lambda: Scalar(cat, x, du) + Scalar(cat, 0.0, du)), ("CreateCopy(value)", lambda: Scalar(cat, 5.0, du).CreateCopy(x))]
+                for how, mk in made:
+                    ctx.ev()
+                    case = {"category": cat, "unit": du, "value": repr(x), "limit": lim, "built_by": how}
+                    try:
+                        o = mk()
+                        held = o.GetValue()
+                        for call in ("IsValid", "CheckValidity", "IsValid"):
+                            try:
+                                getattr(o, call)()
+                            except Exception:
+                                pass
+                            if repr(o.GetValue()) != repr(held):
+                                ctx.violation("validation-or-formatting-changed-an-operand:Scalar.%s" % call, dict(case, held=repr(held), holds=repr(o.GetValue())))
+                                held = o.GetValue()
+                        fresh = mk()
+                        for form, cp in (("copy", _copy.copy(fresh)), ("deepcopy", _copy.deepcopy(fresh)), ("CreateCopy()", fresh.CreateCopy()), ("pickle", _pickle.loads(_pickle.dumps(fresh))), ("pickle of the validated one", _pickle.loads(_pickle.dumps(o)))):
+                            src = o if form.endswith("validated one") else fresh
+                            if repr(cp.GetValue()) != repr(src.GetValue()) or cp != src or cp.GetQuantity() != src.GetQuantity():
+                                ctx.violation("copy-not-equal:%s:Scalar" % form.split(" ")[0], dict(case, original=repr(src.GetValue()), copy=repr(cp.GetValue()), form=form))
+                    except Exception as e:
+                        ctx.violation("near-limit-scalar-raised:%s" % type(e).__name__, dict(case, error=str(e)[:160]))
+        ctx.count("scalars a rounding error away from a limit: validated, copied, pickled", 4 * 7 * 4)
 
 
 def _label(P, o):
